@@ -123,6 +123,7 @@ func runDup(c *core.Ctx) []core.Obligation {
 	var obs []core.Obligation
 	p := &purity{c: c, memo: map[*ssa.Function]int{}, allowReads: true}
 	chains, ifs, clamps, calls := 0, 0, 0, 0
+	zeroVars, deadStores := 0, 0
 	for _, pkg := range c.Pkgs {
 		info := pkg.TypesInfo
 		for _, file := range pkg.Syntax {
@@ -148,6 +149,23 @@ func runDup(c *core.Ctx) []core.Obligation {
 					n++
 					obs = append(obs, core.Ob("R-DUP", fmt.Sprintf("dup:%s:%s#%d", rel, fn, n), c.Pos(pos), fn, core.Violated, msg))
 				}
+				// (e) a basic-typed local declared without a value, never assigned, whose address is never taken, but which is read
+				// (f) a named (non-blank) left-hand side of a multi-value call assignment whose value no instruction ever uses
+				zv, ds := neverAssignedReads(info, fd)
+				zeroVars += zv.examined
+				for _, z := range zv.hits {
+					report(z.pos, fmt.Sprintf("local variable `%s` is declared without a value and never assigned, yet it is read: the read always sees the zero value, so the assignment that was meant to set it went to a sibling variable", z.name))
+				}
+				if obj, ok := info.Defs[fd.Name].(*types.Func); ok {
+					if sf := c.SSA(obj); sf != nil {
+						d := deadTupleStores(sf, fd)
+						deadStores += d.examined
+						for _, z := range d.hits {
+							report(z.pos, fmt.Sprintf("`%s` receives a result of %s here but the value is never used (it is overwritten or dropped before any read): the flag or value this call produces is lost, which is what a mistyped sibling variable name looks like", z.name, z.what))
+						}
+					}
+				}
+				_ = ds
 				seenChain := map[ast.Expr]bool{}
 				ast.Inspect(fd.Body, func(nd ast.Node) bool {
 					switch x := nd.(type) {
@@ -244,6 +262,178 @@ func runDup(c *core.Ctx) []core.Obligation {
 			}
 		}
 	}
-	obs = append(obs, core.Ob("R-DUP", "scan", "-", "", core.Discharged, fmt.Sprintf("%d &&/|| chains, %d pairs of consecutive if statements %d clamp statements and %d pairs of consecutive call assignments examined across the library; no duplicated test, no clamp to a value other than the tested bound, no repeated call", chains, ifs, clamps, calls)))
+	obs = append(obs, core.Ob("R-DUP", "scan", "-", "", core.Discharged, fmt.Sprintf("%d &&/|| chains, %d pairs of consecutive if statements %d clamp statements, %d pairs of consecutive call assignments, %d value-less local declarations and %d multi-value call assignments examined across the library; no duplicated test, no clamp to a value other than the tested bound, no repeated call, no never-assigned local that is read, no named result that is never used", chains, ifs, clamps, calls, zeroVars, deadStores)))
 	return obs
+}
+
+
+type dupHit struct {
+	pos  token.Pos
+	name string
+	what string
+}
+
+type dupScan struct {
+	examined int
+	hits     []dupHit
+}
+
+// neverAssignedReads: locals of basic type declared `var x T` (no value) inside fd that are read somewhere but are
+// never the target of an assignment, ++/--, range clause or & operator and are not captured by a closure.
+func neverAssignedReads(info *types.Info, fd *ast.FuncDecl) (dupScan, int) {
+	var res dupScan
+	zero := map[*types.Var]token.Pos{}
+	ast.Inspect(fd.Body, func(n ast.Node) bool {
+		if ds, ok := n.(*ast.DeclStmt); ok {
+			if gd, ok := ds.Decl.(*ast.GenDecl); ok && gd.Tok == token.VAR {
+				for _, sp := range gd.Specs {
+					vs := sp.(*ast.ValueSpec)
+					if len(vs.Values) != 0 {
+						continue
+					}
+					for _, nm := range vs.Names {
+						if v, ok := info.Defs[nm].(*types.Var); ok && nm.Name != "_" {
+							if _, basic := v.Type().Underlying().(*types.Basic); basic {
+								zero[v] = nm.Pos()
+							}
+						}
+					}
+				}
+			}
+		}
+		return true
+	})
+	res.examined = len(zero)
+	if len(zero) == 0 {
+		return res, 0
+	}
+	written := map[*types.Var]bool{}
+	reads := map[*types.Var]token.Pos{}
+	lhsIdent := map[*ast.Ident]bool{}
+	markW := func(e ast.Expr) {
+		if id, ok := ast.Unparen(e).(*ast.Ident); ok {
+			if v, ok := info.Uses[id].(*types.Var); ok {
+				written[v] = true
+				lhsIdent[id] = true
+			}
+		}
+	}
+	var walk func(n ast.Node, inLit bool)
+	walk = func(n ast.Node, inLit bool) {
+		ast.Inspect(n, func(m ast.Node) bool {
+			switch x := m.(type) {
+			case *ast.FuncLit:
+				if !inLit {
+					walk(x.Body, true)
+					return false
+				}
+			case *ast.AssignStmt:
+				for _, l := range x.Lhs {
+					markW(l)
+				}
+			case *ast.IncDecStmt:
+				markW(x.X)
+			case *ast.RangeStmt:
+				if x.Key != nil {
+					markW(x.Key)
+				}
+				if x.Value != nil {
+					markW(x.Value)
+				}
+			case *ast.UnaryExpr:
+				if x.Op == token.AND {
+					markW(x.X)
+				}
+			case *ast.CallExpr:
+				// x.M() with a pointer receiver takes &x implicitly
+				if sel, ok := x.Fun.(*ast.SelectorExpr); ok {
+					if s := info.Selections[sel]; s != nil && s.Kind() == types.MethodVal {
+						if sig, ok := s.Obj().Type().(*types.Signature); ok && sig.Recv() != nil {
+							if _, ptr := sig.Recv().Type().(*types.Pointer); ptr {
+								markW(sel.X)
+							}
+						}
+					}
+				}
+			case *ast.Ident:
+				if v, ok := info.Uses[x].(*types.Var); ok {
+					if inLit {
+						written[v] = true // captured: give up on it
+					}
+					if !lhsIdent[x] {
+						if _, seen := reads[v]; !seen {
+							reads[v] = x.Pos()
+						}
+					}
+				}
+			}
+			return true
+		})
+	}
+	walk(fd.Body, false)
+	for v := range zero {
+		if rp, ok := reads[v]; ok && !written[v] {
+			res.hits = append(res.hits, dupHit{pos: rp, name: v.Name()})
+		}
+	}
+	return res, 0
+}
+
+// deadTupleStores: for every assignment `a, b = f(...)` / `a, b := f(...)` in fd whose right-hand side is one
+// multi-value call, a named left-hand side whose extracted value has no user in the SSA form.
+func deadTupleStores(fn *ssa.Function, fd *ast.FuncDecl) dupScan {
+	var res dupScan
+	byParen := map[token.Pos]*ast.AssignStmt{}
+	ast.Inspect(fd.Body, func(n ast.Node) bool {
+		if _, ok := n.(*ast.FuncLit); ok {
+			return false
+		}
+		if as, ok := n.(*ast.AssignStmt); ok && len(as.Rhs) == 1 && len(as.Lhs) > 1 {
+			if call, ok := ast.Unparen(as.Rhs[0]).(*ast.CallExpr); ok {
+				byParen[call.Lparen] = as
+			}
+		}
+		return true
+	})
+	if len(byParen) == 0 {
+		return res
+	}
+	for _, b := range fn.Blocks {
+		for _, in := range b.Instrs {
+			call, ok := in.(*ssa.Call)
+			if !ok {
+				continue
+			}
+			as := byParen[call.Pos()]
+			if as == nil {
+				continue
+			}
+			res.examined++
+			used := map[int]bool{}
+			for _, r := range *call.Referrers() {
+				if ex, ok := r.(*ssa.Extract); ok {
+					if refs := ex.Referrers(); refs != nil && len(*refs) > 0 {
+						used[ex.Index] = true
+					}
+				} else {
+					// the tuple itself is used (returned as is): everything counts as used
+					for i := range as.Lhs {
+						used[i] = true
+					}
+				}
+			}
+			for i, l := range as.Lhs {
+				id, ok := ast.Unparen(l).(*ast.Ident)
+				if !ok || id.Name == "_" || used[i] {
+					continue
+				}
+				what := "the call"
+				if sc := call.Common().StaticCallee(); sc != nil {
+					what = sc.Name()
+				}
+				res.hits = append(res.hits, dupHit{pos: id.Pos(), name: id.Name, what: what})
+			}
+		}
+	}
+	return res
 }
